@@ -112,18 +112,25 @@ def eval_case(case: dict) -> dict:
             if verdict == refcfg.REJECT:
                 viol(f'must-reject-accepted:{reason_kind}', files=[f[0] for f in files])
             names = [f[0] for f in files]
-            if names != shellbuild.expected_filenames(enc):
+            if sorted(names) != sorted(shellbuild.expected_filenames(enc)):
                 viol('file-set-differs', got=names)
-            acc = shellbuild.accessors_in_header(files[0][1])
+            header = next((f[1] for f in files if f[0] == shellbuild.shell_name(enc) + '.hh'),
+                          files[0][1])
+            acc = shellbuild.accessors_in_header(header)
+            if exposed and not acc:
+                # the textual pattern found nothing at all: the layout of the header changed;
+                # accessor types are then left to the compiled static_asserts of C02/C06/C07
+                cnt['textual_accessor_extraction_failed'] = 1
+                acc = None
             got_acc = {}
-            for a in acc:
+            for a in acc or []:
                 key = a['cap']
                 got_acc.setdefault(key, []).append((a['direction'], a['semantics']))
             cnt['headers_inspected'] = 1
-            for name in case['injected']:
+            for name in case['injected'] if acc is not None else []:
                 if shellbuild.cap(name) in got_acc:
                     viol('injected-port-exposed', port=name)
-            for name in exposed:
+            for name in exposed if acc is not None else []:
                 entries = got_acc.get(shellbuild.cap(name), [])
                 if len(entries) != 1:
                     viol('exposed-port-accessor-count', port=name, entries=entries)
@@ -133,7 +140,7 @@ def eval_case(case: dict) -> dict:
                         viol('accessor-semantics-differ', port=name, want=mapping[name],
                              got=entries[0])
             extra = set(got_acc) - {shellbuild.cap(n) for n in exposed}
-            if extra:
+            if extra and acc is not None:
                 viol('extra-accessor', extra=sorted(extra))
     out['digest'] = common.digest(case)
     out['nontrivial'] = len(exposed) >= 2 and (isinstance(case['psel']['sts'], list)
